@@ -293,7 +293,7 @@ func knownBySignature(r result) string {
 	switch {
 	case r.panicked && strings.Contains(r.pval, "is *sql.WindowFnExp, not *sql.FnCall"):
 		return kfF28
-	case r.panicked && strings.Contains(r.stack, "sql.(*padFn).Apply"):
+	case r.panicked && (strings.Contains(r.stack, "sql.(*padFn).Apply") || strings.Contains(r.stack, "sql.(*repeatFn).Apply")):
 		return kfF29
 	}
 	return ""
@@ -330,6 +330,8 @@ func sqlProbes() []vk.Probe {
 		}},
 	}
 }
+
+var padRe = regexp.MustCompile(`(?i)([LR]PAD|REPEAT)\s*\(`)
 
 var heavyRe = regexp.MustCompile(`(?i)RECURSIVE|GENERATE_SERIES|PG_SLEEP|SLEEP`)
 
@@ -380,6 +382,12 @@ func TestSQLParseAndExec(t *testing.T) {
 			parsedAny = true
 			c.Label("parses")
 			vk.AddLabel("TestSQLParseAndExec/statements-parsed", 1)
+			if padRe.MatchString(text) && vk.Excluded(kfF29) {
+				// LPAD/RPAD/REPEAT: negative length panics, huge length never finishes or exhausts the memory (known finding): parsed, not executed
+				vk.CountExcluded(kfF29)
+				c.Label("known-class-" + kfF29)
+				continue
+			}
 			if heavyRe.MatchString(text) || len(text) > 20000 {
 				c.Label("not-executed-(unbounded-by-nature)")
 				continue
